@@ -152,6 +152,40 @@ def check(ctx):
                 if not ea.ratfunc(via).equals(cv[a, c]):
                     ctx.fail("C18.O2", f"path dependence on a user-defined chain: {a}->{b}->{c} gives {via!r} but {a}->{c} gives a different value", site=usite, key="C18.O2|chain|path")
     ctx.ok("C18.O2", f"path independence a->b->c == a->c on {n} triples of a 6-unit symbolic chain")
+    # ---- O2 (c) a chain of units with offsets (x*k + d, like temperature scales): conversions that do not commute,
+    # so the order in which convert() walks to the root and back matters
+    it2 = Interp(ctx.program, hooks=pur)
+
+    def mka(name, base):
+        if base is None:
+            return it2.call(Unit, [], {"base_unit": None, "base_to_unit": lam(it2, mu, "lambda x: None", {}), "unit_to_base": lam(it2, mu, "lambda x: None", {})})
+        k, d = Sym("k_" + name, "num", uid=0), Sym("d_" + name, "num", uid=0)
+        return it2.call(Unit, [], {"base_unit": base, "base_to_unit": lam(it2, mu, "lambda x: (x - d) / k", {"k": k, "d": d}), "unit_to_base": lam(it2, mu, "lambda x: x * k + d", {"k": k, "d": d})})
+
+    Ra = mka("R", None)
+    T1 = mka("T1", Ra)
+    T2 = mka("T2", T1)
+    T3 = mka("T3", T2)
+    U1 = mka("U1", Ra)
+    ach = {"R": Ra, "T1": T1, "T2": T2, "T3": T3, "U1": U1}
+    na = 0
+    bad_aff = None
+    for a in ach:
+        same = it2.call(conv, [ach[a], ach[a], x], {})
+        if not ea.ratfunc(same).equals(X):
+            bad_aff = bad_aff or f"convert(u, u, x) = {same!r} != x for the user-defined unit {a} of a chain with offsets"
+        for b in ach:
+            there = it2.call(conv, [ach[a], ach[b], x], {})
+            back = it2.call(conv, [ach[b], ach[a], there], {})
+            na += 1
+            if not ea.ratfunc(back).equals(X):
+                bad_aff = bad_aff or f"converting {a}->{b}->{a} on a chain of units with offsets returns {back!r}, not the value"
+            for c in ach:
+                via = it2.call(conv, [ach[b], ach[c], there], {})
+                direct = it2.call(conv, [ach[a], ach[c], x], {})
+                if not ea.ratfunc(via).equals(ea.ratfunc(direct)):
+                    bad_aff = bad_aff or f"{a}->{b}->{c} differs from {a}->{c} on a chain of units with offsets"
+    ctx.require(bad_aff is None, "C18.O2", f"identity / round trip / path independence on {na} pairs of a chain of units with offsets (non-commuting conversions)", bad_aff or "", site=usite, key="C18.O2|chain|offsets")
     ctx.add("chain_triples", n)
     ctx.require(not pur.hits, "C18.O2", "convert() writes no container that outlives the call", f"convert() writes module-level state at {pur.hits[:1]}: the result of a conversion can depend on earlier calls", site=pur.hits[0] if pur.hits else usite, key="C18.O2|purity")
     ctx.sample({"convert(inch, centimeter, x)": repr(Interp(ctx.program).call(conv, [units["inch"], units["centimeter"], x], {}))})
